@@ -638,6 +638,22 @@ theorem sent_message_carries_params (c : SendCfg) (hlen : ∀ x, (c.H x).length 
   simp only [bind, Outcome.bind, hxb, ← hbody, attached_ordinary]
   exact decodeBody_attached c.v hf _ hids _ _ _ (Or.inl rfl) hseq hvu msgs hn hm ht _ (hsl _ _)
 
+/-- **The expiry of what `Send` sends**: `Send` is `SendV2` with valid-until = now + the wallet's message lifetime (180 s
+by default, or the `WithMessageLifetime` value); before 2106 that is strictly in the future and exactly `lifetime`
+seconds ahead — never already expired, never the default when another lifetime was asked for; and by
+`sent_message_carries_params` it is the expiry the captured message decodes to. (Tied to Go by the oracle `go.m.expiry`:
+decoded valid-until of the captured payload within ±3 s of now + lifetime, for the default, 1 minute and 1 hour.) -/
+theorem send_expiry_is_now_plus_lifetime (c : SendCfg) (loop : Nat → Nat → List Poll → Bool) (nowSec : Nat) (lifetime : Option Nat)
+    (rnd : Nat) (msgs : List RawMsg) (sc : Script) (wait : Nat) (h32 : nowSec + lifetime.getD defaultMessageLifetime < 4294967296)
+    (hpos : 0 < lifetime.getD defaultMessageLifetime) :
+    sendNow c loop nowSec lifetime rnd msgs sc wait = sendV2Msg c loop (nowSec + lifetime.getD defaultMessageLifetime) rnd msgs sc wait
+    ∧ nowSec < sendExpiry nowSec lifetime ∧ sendExpiry nowSec none = (nowSec + 180) % 4294967296 := by
+  have he : sendExpiry nowSec lifetime = nowSec + lifetime.getD defaultMessageLifetime := by
+    unfold sendExpiry; exact Nat.mod_eq_of_lt h32
+  refine ⟨?_, by rw [he]; omega, rfl⟩
+  unfold sendNow sendV2Msg
+  rw [he]
+
 /-- The projection is faithful: when the builders succeed (C14 `fits_in_cell`, `fits_in_cell_highload`), the
 message-level `SendV2` and its projection `sendV2` (on which the confirmation theorems are stated) have the same outcome
 and send under exactly the same conditions. -/
